@@ -316,6 +316,27 @@ class Discharger:
         return False, "assert " + msg
 
     def _d_diverge(self, s):
+        # `let Some(x) = e else { panic!(..) }` / `match e { None => panic!(..), .. }` is `e.expect(..)` written out:
+        # the site is reached exactly when e is None/Err, so it is discharged like the unwrap of e
+        macs = span_macros(s.call.sp) if s.call is not None else []
+        if macs and macs[-1] in ("panic", "unreachable", "std::panic", "core::panic"):
+            best = None
+            for cnd, truth in lib.dominating_conditions(s.body, s.bb):
+                if cnd.kind == "enum" and truth in (("None",), ("Err",)):
+                    best = cnd
+            if best is not None:
+                e = strip(self.X.place(s.body, best.place))
+                shim = Site("unwrap", s.body, s.bb, s.where, s.what, call=None)
+                shim.root = s.root
+                ok = True
+                how = ""
+                for a in alts(e):
+                    ok, how = self._unwrap_alt(shim, a)
+                    if not ok:
+                        break
+                if ok:
+                    s.what = shim.what
+                    return True, "panic on the None/Err arm of %s: %s" % (show(e)[:60], how)
         return False, "explicit panic site (%s)" % s.what
 
     # -- unwrap / expect
@@ -369,6 +390,8 @@ class Discharger:
                 s.what = "unwrap:notification-task"
                 return False, "awaited handler result unwrapped"
         # guarded by is_some()/is_ok() on the same place
+        if s.call is None:
+            return False, "value not proved Some/Ok: %s" % show(e)[:160]
         recv = recv_root(body, s.call.args[0])
         for cnd, truth in lib.dominating_conditions(body, s.bb):
             if cnd.kind == "call" and truth and cnd.call.name in ("std::option::Option::is_some", "std::result::Result::is_ok"):
@@ -381,8 +404,6 @@ class Discharger:
         by typestate - the entry was inserted under the lock by the handler that spawned this lifecycle,
         and no ANSWER/TABLE_REM precedes the site on any path (checked here)."""
         body = s.body
-        if "htlc_manager::PaymentState" not in s.call.full and "PaymentState" not in show(e):
-            pass
         # the map must be the payments table guard
         ok_recv = False
         for x in walk(e[2][0] if e[2] else ()):
